@@ -52,6 +52,13 @@ def programs(t):
         lines.append('P(%s, -4, i32, -2, 2)' % rep)
         lines.append('P(i16, 3, %s, -1, 2)' % rep)
     lines += elastic_boundary_programs(t)
+    # exponent gaps of 64 and more (power_value builds 2^n in two steps there): 128-bit reps and elastic reps whose
+    # aligned width exceeds 63 digits; odd and even gaps
+    for (le, re) in [(0, -65), (-65, 0), (3, -66), (0, -64), (-101, 0), (0, -126)] + ([(1, -70), (-69, 0), (0, -99), (-64, 1)] if t else []):
+        lines.append('P(i128, %d, i128, %d, 2)' % (le, re))
+    lines.append('P(u128, 0, u128, -65, 2)')
+    for (d, le, re) in [(30, 0, -71), (20, -67, 0), (31, 0, -65), (40, -64, 0)] + ([(7, 0, -100), (50, 3, -70)] if t else []):
+        lines.append('P(ES<%d>, %d, ES<%d>, %d, 2)' % (d, le, d, re))
     return lines
 
 
